@@ -50,6 +50,9 @@ def parseInj (ws : List String) : Option Inj :=
   -- the step is carried out and the process dies right after it: for the modelled step order this is a
   -- crash before the next durable step (or, after the last step, an operation that completed unobserved)
   | ["crashafter", s] => some (.crash (nat! s + 1) 0)
+  -- every fsync of the operation fails: the stores sync only while repairing a failed index transaction, so on
+  -- its own this is no fault at all for the model (an operation that notices it has changed its durable steps)
+  | ["fault", "syncerr", _, _] => some .none
   | ["fault", k, s, a] =>
     let kind := match k with
       | "shortwrite" => some FaultKind.shortwrite
